@@ -33,22 +33,42 @@ Definition srv_of (t : tsrv) : server :=
 
 (* ---- scripted connections -------------------------------------------------- *)
 
-Record tstep := { ts_ret : hret; ts_next : option cmd; ts_srv : tsrv }.
+(* server tables are listed once per case and referred to by position *)
+Record tstep := { ts_ret : hret; ts_next : option cmd; ts_srv : nat }.
 Record tconn := {
-  tc_srv : tsrv; tc_peer : addr; tc_first : option cmd; tc_hs : hs_in; tc_steps : list tstep
+  tc_srv : nat; tc_peer : addr; tc_first : option cmd; tc_hs : hs_in; tc_steps : list tstep
 }.
 Inductive tevent :=
 | TConn (c : tconn)
 | TDrop (s : sid)
 | TImport (s : sid) (e : sentry).
 
-Definition step_of (s : tstep) : step :=
-  {| st_ret := ts_ret s; st_next := ts_next s; st_srv := srv_of (ts_srv s) |}.
-Definition conn_of (c : tconn) : conn :=
-  {| c_srv := srv_of (tc_srv c); c_peer := tc_peer c; c_first := tc_first c; c_hs := tc_hs c;
-     c_steps := map step_of (tc_steps c) |}.
-Definition event_of (e : tevent) : event :=
-  match e with TConn c => EConn (conn_of c) | TDrop s => EDrop s | TImport s e => EImport s e end.
+Fixpoint map_opt {A B} (f : A -> option B) (l : list A) : option (list B) :=
+  match l with
+  | [] => Some []
+  | x :: r => match f x, map_opt f r with Some y, Some ys => Some (y :: ys) | _, _ => None end
+  end.
+
+Definition tab (tabs : list tsrv) (i : nat) : option server :=
+  match nth_error tabs i with Some t => Some (srv_of t) | None => None end.
+
+Definition step_of (tabs : list tsrv) (s : tstep) : option step :=
+  match tab tabs (ts_srv s) with
+  | Some sv => Some {| st_ret := ts_ret s; st_next := ts_next s; st_srv := sv |}
+  | None => None
+  end.
+Definition conn_of (tabs : list tsrv) (c : tconn) : option conn :=
+  match tab tabs (tc_srv c), map_opt (step_of tabs) (tc_steps c) with
+  | Some sv, Some steps =>
+      Some {| c_srv := sv; c_peer := tc_peer c; c_first := tc_first c; c_hs := tc_hs c; c_steps := steps |}
+  | _, _ => None
+  end.
+Definition event_of (tabs : list tsrv) (e : tevent) : option event :=
+  match e with
+  | TConn c => match conn_of tabs c with Some cn => Some (EConn cn) | None => None end
+  | TDrop s => Some (EDrop s)
+  | TImport s e => Some (EImport s e)
+  end.
 
 (* ---- observations ----------------------------------------------------------- *)
 
@@ -95,35 +115,44 @@ Definition subset (a b : list cmd) : bool := forallb (fun x => existsb (Z.eqb x)
 
 Inductive case :=
 (* a multi-connection history against one (mutable) server, from an empty cache *)
-| CHist (evs : list tevent) (obs : list oconn)
+| CHist (tabs : list tsrv) (evs : list tevent) (obs : list oconn)
 (* commandLevelSatisfied(cmd, a, e) on a server with the given default / per-command answer *)
 | CLevel (def : option policy) (per : option (option policy)) (a e : bool) (obs : bool)
-(* sessionSatisfies(cmd, peer, neg) and lookup(cmd) = (registered, raw) *)
-| CSat (t : tsrv) (c : cmd) (peer : addr) (neg : option (bool * bool * user)) (obs : bool) (obs_reg obs_raw : bool)
-(* postAuthPolicy(user, peer, a, e) = ValidCommands *)
-| CPost (t : tsrv) (u : user) (peer : addr) (a e : bool) (obs : list cmd).
+(* sessionSatisfies(cmd, peer, neg) = obs and lookup(cmd) = (registered, raw),
+   for a list of queries against one server *)
+| CSat (t : tsrv) (qs : list (cmd * addr * option (bool * bool * user) * bool * bool * bool))
+(* postAuthPolicy(user, peer, a, e) = ValidCommands, for a list of queries against one server *)
+| CPost (t : tsrv) (qs : list (user * addr * bool * bool * list cmd)).
 
 Definition check_case (c : case) : bool :=
   match c with
-  | CHist evs obs => all2 conn_eqb (run_history [] (map event_of evs)) obs
+  | CHist tabs evs obs =>
+      match map_opt (event_of tabs) evs with
+      | Some es => all2 conn_eqb (run_history [] es) obs
+      | None => false   (* a table index out of range: malformed case *)
+      end
   | CLevel def per a e obs =>
       let s := {| s_default := def;
                   s_percmd := match per with Some r => Some (fun _ => r) | None => None end;
                   s_authorizer := None; s_handlers := [] |} in
       Bool.eqb (command_level_satisfied s 0%Z a e) obs
-  | CSat t c peer neg obs oreg oraw =>
+  | CSat t qs =>
       let s := srv_of t in
-      let n := match neg with
-               | Some (a, e, u) => Some {| n_cmd := c; n_authn := a; n_enc := e; n_user := u; n_resumed := false; n_sid := 0 |}
-               | None => None end in
-      Bool.eqb (session_satisfies s c peer n) obs
-      && match lookup (s_handlers s) c with
-         | None => negb oreg
-         | Some h => oreg && Bool.eqb (h_raw h) oraw
-         end
-  | CPost t u peer a e obs =>
-      let m := post_auth_policy (srv_of t) u peer a e in
-      subset m obs && subset obs m
+      forallb (fun q =>
+        let '(c, peer, neg, obs, oreg, oraw) := q in
+        let n := match neg with
+                 | Some (a, e, u) => Some {| n_cmd := c; n_authn := a; n_enc := e; n_user := u; n_resumed := false; n_sid := 0 |}
+                 | None => None end in
+        Bool.eqb (session_satisfies s c peer n) obs
+        && match lookup (s_handlers s) c with
+           | None => negb oreg
+           | Some h => oreg && Bool.eqb (h_raw h) oraw
+           end) qs
+  | CPost t qs =>
+      forallb (fun q =>
+        let '(u, peer, a, e, obs) := q in
+        let m := post_auth_policy (srv_of t) u peer a e in
+        subset m obs && subset obs m) qs
   end.
 
 Fixpoint mism (i : nat) (cs : list case) : list nat :=
